@@ -1,0 +1,36 @@
+//go:build verif
+
+package bn256
+
+// Contracts for govc (/verif). Comments only.
+// bv(x): the mathematical value of a *big.Int (ghost field bigval, see
+// /verif/contracts/math_big.contracts). P: the field prime (constants.go).
+
+//@ pred bv(x) = ghost(x, bigval)
+//@ pred P() = 65000549695646603732796438742359905742825358107623003571877145026864184071783
+//@ assume_global p != nil && bv(p) == P() && curveB != nil && bv(curveB) == 3
+
+// representation invariant of a curvePoint: four distinct, non-nil big.Ints
+//@ pred cpinv(c) = c.x != nil && c.y != nil && c.z != nil && c.t != nil && c.x != c.y && c.x != c.z && c.x != c.t && c.y != c.z && c.y != c.t && c.z != c.t
+
+//@ func (*curvePoint).IsOnCurve
+//@ props C52
+//@ requires c.x != nil && c.y != nil
+//@ ensures result == ((bv(c.y)*bv(c.y) - bv(c.x)*bv(c.x)*bv(c.x) - 3) % P() == 0)
+//@ ensures bv(c.x) == old(bv(c.x)) && bv(c.y) == old(bv(c.y))
+
+//@ func (*G1).Unmarshal
+//@ props C52
+//@ requires implies(e.p != nil, cpinv(e.p))
+//@ modifies e.p
+//@ modifies heap
+//@ ensures implies(result1, result0 == e && len(m) == 64 && e.p != nil)
+//@ let X = spec.beval(row(m), off(m), 32)
+//@ let Y = spec.beval(row(m), off(m) + 32, 32)
+//@ ensures implies(result1, bv(e.p.x) == X)
+//@ ensures implies(result1 && !(X == 0 && Y == 0), bv(e.p.y) == Y && bv(e.p.z) == 1 && bv(e.p.t) == 1)
+//@ ensures implies(result1 && X == 0 && Y == 0, bv(e.p.y) == 1 && bv(e.p.z) == 0 && bv(e.p.t) == 0)
+//@ ensures implies(result1 && !(X == 0 && Y == 0), (Y*Y - X*X*X - 3) % P() == 0)
+//@ ensures implies(result1, X < P() && Y < P())
+//@ ensures implies(result1, cpinv(e.p))
+//@ ensures implies(len(m) != 64, !result1)
